@@ -46,6 +46,8 @@ RULE = (
     "publication interval or ends off a publication; distinct by canonical case hash"
 )
 TRUSTED = [
+    "consumer grids given in another compatible layout (axes running the other way): delivered cells are matched to the "
+    "published cells by their coordinates (grid.data_points of both grids), finam's layout transform itself is C15's subject",
     "IEEE rounding of the integration arithmetic is outside the model: compared with relative tolerance 2^-40 of "
     "(1+max|v|) x (4 for averages | 1+#ops for absolute sums | 1+span_seconds+|initial_interval| for per-time sums); "
     "absolute sums with power-of-two gaps, dyadic values and dyadic step are compared exactly",
